@@ -924,19 +924,77 @@ fn pair_is_nontrivial(c: &Case) -> bool {
 /// All merges of one pair of sequences: without watermark updates (exact equality + direct
 /// cross-merge comparison) and with the given number of watermark variants per merge.
 fn explore_pair(base: &Case, rng: &mut Rng, st: &mut Stats, wm_variants: usize) {
+    explore_pair_with(base, rng, st, wm_variants, None)
+}
+
+/// A LONG pair (20..=150 events a side, timestamps 0..=60): buffers, matched-sets and the emitted
+/// list far beyond the handful of entries of the enumerated pairs. All merges cannot be run;
+/// `k` random merges (plus "all left first" and "all right first") are.
+fn explore_long_pair(rng: &mut Rng, st: &mut Stats, wm_variants: usize) {
+    let nl = 20 + rng.below(131);
+    let nr = 20 + rng.below(131);
+    let nkeys = 1 + rng.below(4);
+    let ts_dom = *rng.pick(&[20usize, 60, 60]);
+    let vdom = 1 + rng.below(3) as i64;
+    let ev = |rng: &mut Rng| Ev {
+        key: if rng.chance(1, 10) { None } else { Some(rng.below(nkeys) as u8) },
+        ts: rng.below(ts_dom + 1) as u64,
+        v: rng.range(0, vdom),
+    };
+    let left: Vec<Ev> = (0..nl).map(|_| ev(rng)).collect();
+    let right: Vec<Ev> = (0..nr).map(|_| ev(rng)).collect();
+    let base = Case {
+        w: *rng.pick(&[0u64, 1, 2, 5, 20]),
+        cond: if rng.bool() { Cond::True } else { Cond::VLe },
+        mode: if rng.chance(1, 4) { Mode::Manager } else { Mode::Node },
+        left,
+        right,
+        steps: vec![],
+        steps2: None,
+        reuse_ids: false,
+        w_frac_ms: 0,
+        base: 0,
+    };
+    let mut ms: Vec<Vec<Step>> = Vec::new();
+    ms.push((0..nl).map(Step::L).chain((0..nr).map(Step::R)).collect());
+    ms.push((0..nr).map(Step::R).chain((0..nl).map(Step::L)).collect());
+    for _ in 0..3 {
+        let (mut l, mut r) = (0usize, 0usize);
+        let mut m = Vec::with_capacity(nl + nr);
+        while l < nl || r < nr {
+            let take_l = r >= nr || (l < nl && rng.below(nl + nr - l - r) < nl - l);
+            if take_l {
+                m.push(Step::L(l));
+                l += 1;
+            } else {
+                m.push(Step::R(r));
+                r += 1;
+            }
+        }
+        ms.push(m);
+    }
+    st.count("long_pairs(20..=150 events a side, 5 merges each)");
+    st.max("max::events_in_one_pair", (nl + nr) as u64);
+    explore_pair_with(&base, rng, st, wm_variants, Some(ms));
+}
+
+fn explore_pair_with(base: &Case, rng: &mut Rng, st: &mut Stats, wm_variants: usize, ms_given: Option<Vec<Vec<Step>>>) {
     st.count("pairs_of_sequences");
     if pair_is_nontrivial(base) {
         st.nontrivial(hash_of(&(base.w, base.cond, &base.left, &base.right)));
     }
-    let ms = merges(base.left.len(), base.right.len());
-    if pair_is_nontrivial(base) {
+    let long = ms_given.is_some();
+    let ms = ms_given.unwrap_or_else(|| merges(base.left.len(), base.right.len()));
+    if pair_is_nontrivial(base) && !long {
         st.sample(|| {
             let mut j = base.to_json();
             j["steps"] = json!(format!("all {} merges of the two arrival orders, each without and with watermark updates", ms.len()));
             j
         });
     }
-    st.max("max::merges_of_one_pair", ms.len() as u64);
+    if !long {
+        st.max("max::merges_of_one_pair", ms.len() as u64);
+    }
     let ts_hi = base.left.iter().chain(base.right.iter()).map(|e| e.ts).max().unwrap_or(0) as i64;
     let mut first: Option<(Vec<Step>, BTreeSet<(usize, usize)>)> = None;
     for m in &ms {
@@ -1139,6 +1197,12 @@ impl Check for C14 {
                 }
                 let base = random_pair(rng);
                 explore_pair(&base, rng, st, wm_variants);
+            }
+            for _ in 0..(per / 400).max(4) {
+                if cli.expired() {
+                    break;
+                }
+                explore_long_pair(rng, st, 1);
             }
         });
         if st.get("runs_with_watermark_updates") == 0 || st.get("runs_without_watermark_update") == 0 {
